@@ -684,36 +684,68 @@ func ruleC06_2(c *Ctx, r *Rep) {
 	}
 	// HasFullDeadLetterConfig itself
 	if h := r.Anchor("C06.2", "(*ent.Subscription).HasFullDeadLetterConfig"); h != nil {
-		need := map[string]bool{"MaxDeliveryAttempts!=nil": false, "DeadLetterTopicID!=nil": false, "MaxDeliveryAttempts>0": false}
-		for _, b := range h.Blocks {
-			for _, in := range b.Instrs {
-				bo, ok := in.(*ssa.BinOp)
-				if !ok {
-					continue
+		// every path on which the result can be true has established all three facts (as branch conditions on the
+		// way, or as the returned comparison itself)
+		names := []string{"MaxDeliveryAttempts!=nil", "DeadLetterTopicID!=nil", "MaxDeliveryAttempts>0"}
+		fact := func(cd Cond) string {
+			nc := normCond(cd.V, cd.Pol)
+			bo, ok := nc.V.(*ssa.BinOp)
+			if !ok {
+				return ""
+			}
+			src := sources(bo)
+			nonNil := isNilConst(bo.Y) && (bo.Op == token.NEQ && nc.Pol || bo.Op == token.EQL && !nc.Pol)
+			if nonNil && src["field:MaxDeliveryAttempts"] {
+				return names[0]
+			}
+			if nonNil && src["field:DeadLetterTopicID"] {
+				return names[1]
+			}
+			if z, isC := constInt(bo.Y); isC && z == 0 && src["field:MaxDeliveryAttempts"] && (bo.Op == token.GTR && nc.Pol || bo.Op == token.LEQ && !nc.Pol) {
+				return names[2]
+			}
+			if o, isC := constInt(bo.Y); isC && o == 1 && src["field:MaxDeliveryAttempts"] && (bo.Op == token.GEQ && nc.Pol || bo.Op == token.LSS && !nc.Pol) {
+				return names[2]
+			}
+			return ""
+		}
+		missing := map[string]bool{}
+		npaths := 0
+		for _, ret := range returnsOf(h) {
+			rv := retResult(ret, 0)
+			if k, isK := rv.(*ssa.Const); isK && k.Value != nil && k.Value.String() == "false" {
+				continue
+			}
+			pathsToRaw(h, ret.Block(), func(cs []Cond) {
+				all := append([]Cond{}, cs...)
+				if _, isK := rv.(*ssa.Const); !isK {
+					rc := Cond{rv, true}
+					all = append(all, rc)
+					all = append(all, expandBoolPhi(rc, 0)...)
 				}
-				src := sources(bo)
-				if bo.Op == token.NEQ && isNilConst(bo.Y) && src["field:MaxDeliveryAttempts"] {
-					need["MaxDeliveryAttempts!=nil"] = true
+				// a phi result narrows which path was taken; only keep paths consistent with it is not needed: extra
+				// facts can only help
+				npaths++
+				got := map[string]bool{}
+				for _, cd := range all {
+					if f := fact(cd); f != "" {
+						got[f] = true
+					}
 				}
-				if bo.Op == token.NEQ && isNilConst(bo.Y) && src["field:DeadLetterTopicID"] {
-					need["DeadLetterTopicID!=nil"] = true
+				for _, n := range names {
+					if !got[n] {
+						missing[n] = true
+					}
 				}
-				if z, isC := constInt(bo.Y); isC && z == 0 && bo.Op == token.GTR && src["field:MaxDeliveryAttempts"] {
-					need["MaxDeliveryAttempts>0"] = true
-				}
+			})
+		}
+		var miss []string
+		for _, n := range names {
+			if missing[n] {
+				miss = append(miss, n)
 			}
 		}
-		// the result is the conjunction: every `return true`-capable path passes all three tests.
-		okAll := true
-		var missing []string
-		for k, v := range need {
-			if !v {
-				okAll = false
-				missing = append(missing, k)
-			}
-		}
-		okConj := conjunctionOnly(h)
-		r.Check("C06.2", "C06.2:HasFullDeadLetterConfig", h.Pos(), okAll && okConj, "requires max attempts set and > 0 and a dead-letter topic", "HasFullDeadLetterConfig no longer requires "+strings.Join(missing, ", ")+fmt.Sprintf(" (conjunction=%v)", okConj))
+		r.Check("C06.2", "C06.2:HasFullDeadLetterConfig", h.Pos(), npaths > 0 && len(miss) == 0, "requires max attempts set and > 0 and a dead-letter topic", "HasFullDeadLetterConfig can be true without "+strings.Join(miss, ", "))
 	}
 	// sweep selection
 	if fn := r.Anchor("C06.2", fnDLSweep); fn != nil {
